@@ -685,6 +685,17 @@ func ownedBy(v ssa.Value, p *ssa.Parameter, depth int) bool {
 		return objOf(fa.X, fa.Field, p, depth+1)
 	case *ssa.Field:
 		return objOf(x.X, x.Field, p, depth+1)
+	case *ssa.Phi:
+		// a variable that holds the owner's slice on some path (all := co.context; if len(all) == 0 { all = make(…) })
+		// - but not the accumulator of a loop that starts from a fresh slice and grows by its own appends
+		for _, e := range x.Edges {
+			if cl, isCall := e.(*ssa.Call); isCall && CallBuiltin(cl) == "append" {
+				continue
+			}
+			if ownedBy(e, p, depth+1) {
+				return true
+			}
+		}
 	}
 	return false
 }
